@@ -5,9 +5,12 @@ package exec
 
 import (
 	"bytes"
+	"context"
 	"encoding/gob"
+	"io"
 	"sync"
 
+	"github.com/grailbio/base/retry"
 	"github.com/grailbio/bigslice/frame"
 	"github.com/grailbio/bigslice/internal/simhook"
 	"github.com/grailbio/bigslice/sliceio"
@@ -104,3 +107,41 @@ func VerifMultiReader(readers []sliceio.Reader) sliceio.Reader {
 func VerifTaskBufferReader(parts [][]frame.Frame, partition int) sliceio.ReadCloser {
 	return taskBuffer(parts).Reader(partition)
 }
+
+// VerifNewFileStore returns a file-backed task store under prefix.
+func VerifNewFileStore(prefix string) Store { return &fileStore{Prefix: prefix} }
+
+// VerifNewMemoryStore returns an in-memory task store.
+func VerifNewMemoryStore() Store { return newMemoryStore() }
+
+// VerifWriter is the exported view of a store writer.
+type VerifWriter interface {
+	io.Writer
+	Commit(ctx context.Context, count int64) error
+	Discard(ctx context.Context)
+}
+
+// VerifCreate creates a store entry writer.
+func VerifCreate(ctx context.Context, s Store, task TaskName, partition int) (VerifWriter, error) {
+	return s.Create(ctx, task, partition)
+}
+
+// VerifStat returns size and record count of a store entry.
+func VerifStat(ctx context.Context, s Store, task TaskName, partition int) (size, records int64, err error) {
+	info, err := s.Stat(ctx, task, partition)
+	return info.Size, info.Records, err
+}
+
+type verifOpener func(ctx context.Context, offset int64) (io.ReadCloser, error)
+
+func (f verifOpener) OpenAt(ctx context.Context, offset int64) (io.ReadCloser, error) {
+	return f(ctx, offset)
+}
+
+// VerifNewRetryReader returns the executor's retrying reader over open.
+func VerifNewRetryReader(ctx context.Context, open func(ctx context.Context, offset int64) (io.ReadCloser, error)) io.ReadCloser {
+	return newRetryReader(ctx, verifOpener(open))
+}
+
+// VerifRetryPolicy returns the retry policy of remote reads.
+func VerifRetryPolicy() retry.Policy { return retryPolicy }
